@@ -55,7 +55,9 @@ DecCases == {[r |-> r, f |-> "decimal", a |-> a] : r \in NumStrs \cup {I(0), I(1
 ArrCases(n) ==
      {[r |-> r, f |-> f, a |-> <<>>] : r \in Arrs(n), f \in {"len", "reverse", "join", "rand", "shuffle"}}
 \cup {[r |-> r, f |-> "join", a |-> <<c>>] : r \in Arrs(n), c \in {C(<<"-">>), C(<<>>), C(<<"$e$", " ">>)}}
-\cup {[r |-> r, f |-> f, a |-> <<x>>] : r \in Arrs(n), f \in {"contains", "append", "prepend"}, x \in Elems \cup {I(3), A(<<>>), A(<<I(2)>>), O(<<>>), B(TRUE), S("")}}
+\cup {[r |-> r, f |-> f, a |-> <<x>>] : r \in Arrs(n), f \in {"contains", "append", "prepend"}, x \in Elems \cup {I(3), A(<<>>), A(<<I(2)>>), O(<<>>), B(TRUE), S(""),
+                                               \* values that PRINT like an element but are not structurally equal to it
+                                               A(<<S("1")>>), O(<<[pk |-> "k", pv |-> S("1")]>>), A(<<A(<<I(1)>>)>>), S("1"), F(1, 0), S("1, 2"), A(<<I(1), I(2)>>)}}
 \cup {[r |-> r, f |-> f, a |-> <<I(8), S("z")>>] : r \in Arrs(n), f \in {"append", "prepend"}}
 IntArrs == {A([i \in 1..n |-> I(i * 10)]) : n \in 0..4}
 SliceCases == {[r |-> r, f |-> "slice", a |-> <<I(s)>>] : r \in IntArrs, s \in -2..6}
